@@ -558,6 +558,12 @@ pub trait PolynomialCommitment<F: PrimeField, P: Polynomial<F>>: Sized {
                     eprintln!("Claimed evaluation of {} is incorrect", lc.label());
                     return Ok(false);
                 }
+            } else {
+                // A claim about an equation that was not supplied cannot be verified.
+                return Err(Error::MissingPolynomial {
+                    label: lc_label.to_string(),
+                }
+                .into());
             }
         }
 
